@@ -12,7 +12,9 @@ Property theorems over `Model/C04.lean` (the functions the driver runs); constan
 * termination: the model functions are total; what is proved is that the bound of the fixed loop
   loses nothing (`sqrt_bound_complete`) and that the old loop diverged exactly where the fixed code
   returns the error (`sqrtGfP2_none_iff_old_diverges`, `decompressG2_diverges_witness`);
-* soundness of decoding for all inputs: `holdsD1_model`, `holdsD2_model`;
+* soundness of decoding for all inputs: `holdsD1_model` (G1). The G2 analogue (`holdsD2_model`) has a
+  proof script that elaborates, but its kernel check exceeds the memory limit under `lake build`
+  (not included; G2 decoding soundness is checked by monitor + correspondence on every run);
 * round trip: `g1_roundtrip` (all finite points, `P` prime as hypothesis), `identity_roundtrip`;
   G2 round trip for finite points is **not proved** (it needs F_p² to be a field and the
   completeness of the 16-step search for squares; also no argument excludes a subgroup point with a
@@ -63,10 +65,6 @@ def obsOf1 : Except Err (Nat × Nat) → Obs
   | .ok (x, y) => .point1 x y
   | .error e => .err e.toString
 
-def obsOf2 : Except Err (Fp2 × Fp2) → Obs
-  | .ok (x, y) => .point2 x y
-  | .error e => .err e.toString
-
 /-- **Decoding is total and sound (G1)**: for every 32-byte input the fixed `DecompressToG1`
     terminates with an error or with a point that is on the curve, has reduced coordinates and
     compresses back to the input — i.e. the monitor accepts every model output. -/
@@ -107,70 +105,6 @@ theorem holdsD1_model (m : Nat) (hm : m < 2 ^ 256) : holdsD1 m (obsOf1 (decompre
               rw [hpar]
               exact orTop_restore m hm hx
             simp [hx, hyl, hc, hcomp]
-          · rw [if_neg hc]; rfl
-
-
-theorem sqrtLoop_reduced (x : Fp2) : ∀ (f : Nat) (y r : Fp2), Reduced y → sqrtLoop f x y = some r →
-    Reduced r := by
-  intro f
-  induction f with
-  | zero => intro y r _ h; simp [sqrtLoop] at h
-  | succ f ih =>
-    intro y r hy h
-    rw [sqrtLoop.eq_2] at h
-    split at h
-    · injection h with h; subst h; exact hy
-    · exact ih _ _ (mul_reduced _ _) h
-
-theorem sqrt_twistB_none : sqrtGfP2 (Fp2.add (Fp2.pow ⟨0, 0⟩ 3) twistB) = none := by decide +kernel
-
-/-- **Decoding is total and sound (G2)**: for every 64-byte input the fixed `DecompressToG2`
-    terminates with an error or with a point of G2 (on the twist, killed by the group order,
-    reduced coordinates) that compresses back to the input. -/
-theorem holdsD2_model (hi lo : Nat) (hhi : hi < 2 ^ 256) :
-    holdsD2 hi lo (obsOf2 (decompressG2 hi lo)) = true := by
-  unfold decompressG2
-  by_cases h0 : hi = 0 ∧ lo = 0
-  · obtain ⟨rfl, rfl⟩ := h0
-    decide +kernel
-  · rw [if_neg h0]
-    simp only
-    cases hs : sqrtGfP2 (Fp2.add (Fp2.pow ⟨lo, hi % two255⟩ 3) twistB) with
-    | none => rfl
-    | some r =>
-      simp only
-      have hr : Reduced r := sqrtLoop_reduced _ _ _ _ (pow_reduced _ _) hs
-      generalize hy' : (if hi / two255 % 2 ≠ yParity r.y then (⟨P - r.x, P - r.y⟩ : Fp2) else r) = y'
-      unfold g2FromInts
-      cases hf : firstErr [(⟨lo, hi % two255⟩ : Fp2).y, (⟨lo, hi % two255⟩ : Fp2).x, y'.y, y'.x] with
-      | some e => rfl
-      | none =>
-        simp only
-        have hb := firstErr_none _ hf
-        have hxy : hi % two255 < P := hb _ (by simp)
-        have hxx : lo < P := hb _ (by simp)
-        have hyy : y'.y < P := hb _ (by simp)
-        have hyx : y'.x < P := hb _ (by simp)
-        by_cases hz : ((⟨lo, hi % two255⟩ : Fp2).isZero && y'.isZero) = true
-        · exfalso
-          simp only [Fp2.isZero, Bool.and_eq_true, beq_iff_eq] at hz
-          obtain ⟨⟨hlo, hhi0⟩, _⟩ := hz
-          rw [hlo, hhi0, sqrt_twistB_none] at hs
-          cases hs
-        · rw [if_neg hz]
-          by_cases hc : inG2 ⟨lo, hi % two255⟩ y' = true
-          · rw [if_pos hc]
-            simp only [obsOf2, holdsD2]
-            have hyy' : y'.y = if hi / two255 % 2 ≠ r.y % 2 then P - r.y else r.y := by
-              rw [← hy']; unfold yParity; split <;> rfl
-            have hpar : y'.y % 2 = hi / two255 % 2 := by
-              rw [hyy']
-              exact parity_select _ _ (Nat.mod_lt _ (by omega)) hr.2 (by rw [← hyy']; exact hyy)
-            have hcomp : compressG2 ⟨lo, hi % two255⟩ y' = (hi, lo) := by
-              unfold compressG2 yParity
-              simp only
-              rw [hpar, orTop_restore hi hhi hxy]
-            simp [hxx, hxy, hyy, hyx, hc, hcomp]
           · rw [if_neg hc]; rfl
 
 
@@ -227,8 +161,8 @@ theorem hashLoop_mono : ∀ (f g x k : Nat) (r : Nat × Nat × Nat), hashLoop f 
     rw [this, hashLoop.eq_2]
     rw [hashLoop.eq_2] at h
     cases hy : yFromX x with
-    | some y => rw [hy] at h ⊢; exact h
-    | none => rw [hy] at h ⊢; exact ih _ _ _ _ h
+    | some y => rw [hy] at h; exact h
+    | none => rw [hy] at h; exact ih _ _ _ _ h
 
 
 /-! ## Round trip -/
